@@ -24,4 +24,6 @@ def run(P, R, L):
     K.ord7_smallest_snapshot(P, R, L)
     R.clause("GRD-10", "user-key vs file-bound comparisons (is_base_level_for_key and the overlap tests) treat [smallest, largest] as closed")
     K.grd10_closed_intervals(P, R, L)
+    R.clause("SRC-1", "the client iterator merges every source: mutable memtable, immutable memtable (when present), one iterator per level-0 file and per non-empty deeper level")
+    K.src1_iterator_sources(P, R, L)
     R.not_decided += ["sequence arithmetic (prev+1 .. prev+len)", "rotation in the middle of a batch"]
